@@ -188,7 +188,14 @@ def unary_hook(ex, op, v):
     return None
 
 
+BINOP_HOOKS: list = []
+
+
 def binop_hook(ex, op, a, b):
+    for h in BINOP_HOOKS:
+        r = h(ex, op, a, b)
+        if r is not None:
+            return r
     return None
 
 
